@@ -213,6 +213,9 @@ pub fn scenarios(tier: &str) -> Vec<Scenario> {
         tm("T(s0,n1)'", t(0, 1, 9)),
         tm("T(s1,n0)", t(1, 0, 5)),
         tm("T(s1,n1)", t(1, 1, 6)),
+        // the payloads of T(s0,n0) and T(s0,n1) signed by the other signer
+        tm("T(s1,n0) with the payload of T(s0,n0)", t(1, 0, 1)),
+        tm("T(s1,n1) with the payload of T(s0,n1)", t(1, 1, 2)),
         tm("T(s0,nP-1)", t(0, P_NONCES - 1, 7)),
         tm("T(s0,nP)", t(0, P_NONCES, 8)),
         tm("T(s0,n0,len0)", TxSpec::Transact { signer: 0, nonce: 0, tgt: Tgt::s(), data: vec![6, 0], len: 0 }),
